@@ -185,8 +185,10 @@ int main( int argc, char ** argv ) {
                 k = 0;
                 while( in ) {
                     const Inverse_attribute * ia = in->Inverse_attr();
-                    fprintf( g_out, "V %s %d %s inv_entity=%s inv_attr=%s\n", lower( ed->Name() ).c_str(), k++, lower( ia->Name() ).c_str(),
-                             lower( ia->inverted_entity_id_() ).c_str(), lower( ia->inverted_attr_id_() ).c_str() );
+                    // resolved: the FOR attribute as a descriptor (set when the schema is initialised, for every entity registered as having inverse attributes)
+                    const AttrDescriptor * fa = ia->inverted_attr_();
+                    fprintf( g_out, "V %s %d %s inv_entity=%s inv_attr=%s resolved=%s\n", lower( ed->Name() ).c_str(), k++, lower( ia->Name() ).c_str(),
+                             lower( ia->inverted_entity_id_() ).c_str(), lower( ia->inverted_attr_id_() ).c_str(), fa ? lower( fa->Name() ).c_str() : "-" );
                     in = ( Inverse_attributeLinkNode * ) in->NextNode();
                 }
             }
